@@ -1,4 +1,5 @@
 package block
 
-// quick: one crash (value 1: Pick returns 0 = crash at write 0, ...); see harness
+// second crash: Pick(4) = crash at write 0..2 or none; re-delivery orders after the last restart: quick 3, thorough 6
 var zzC05Second = 4
+var zzC05Orders = 3
